@@ -213,8 +213,18 @@ void vf_harness(void)
                 canaries=[{"fn": "KrigingSystem::_lhsCalcul", "rx": r"_p2\.setIech\(_nbgh\[jech\]\);", "rp": "_p2.setIech(jech);", "expect": r"assertion"}])
 
 
+def unit_flagdefine_shared():
+    """the equations kept in the system are exactly those of the (sample, variable) pairs, drift and constraint rows defined for THIS neighbourhood (unit shared with C05)"""
+    import copy
+    from specs import C05
+    u = copy.copy(C05.unit_flagdefine())
+    u.name = "C01.flagDefine"
+    u.claim = "[the system is assembled over exactly the samples / variables of the current neighbourhood: no equation is dropped or kept because of an earlier neighbourhood] " + u.claim
+    return u
+
+
 def units(tier):
-    return [unit_lhs_compress(4 if tier == "quick" else 6), unit_dual_data(3, 2), unit_lhs_assembly(2, 2, 2)]
+    return [unit_lhs_compress(4 if tier == "quick" else 6), unit_dual_data(3, 2), unit_lhs_assembly(2, 2, 2), unit_flagdefine_shared()]
 
 
 META = {
